@@ -11,6 +11,7 @@ import models, srvmodels
 from models import (MODELS, parse_layouts, ChanObj, TxObj, RxObj, VecObj, RcPtr, RcBox, AtomicObj, MutexObj, DequeObj, MioWaker,
                     EndOfSchedule, target)
 from srvmodels import ListenerObj2
+from explore import boundary, single_var_pc
 
 WAKER_TOKEN = (1 << 64) - 1
 SRC = ['accept.rs', 'availability.rs', 'builder.rs', 'handle.rs', 'join_all.rs', 'server.rs', 'service.rs', 'signals.rs', 'socket.rs',
@@ -62,7 +63,7 @@ class World:
             self.limit = z3.BitVec('limit', 64); ex.solver.add(self.limit >= 1, z3.ULE(self.limit, c['limit_max']))
         else:
             self.limit = z3.BitVecVal(c['limit'], 64)
-        ex.clock = z3.BitVecVal(1000, 64)
+        ex.clock = z3.IntVal(1000)
         self.mw = MioWaker(); self.mq = MutexObj(DequeObj())
         self.wq = Struct('WakerQueue', [RcPtr(RcBox(Tuple([self.mw, self.mq])))])
         self.workers = {}          # idx -> current generation: dict(chan, counter, wc, inservice, owed, alive, gen)
@@ -84,7 +85,7 @@ class World:
                              srv=Struct('ServerHandle', [TxObj(self.cmd)]), next=z3.BitVecVal(0, 64), avail=self.avail,
                              timeout=Enum('Option', 'None'), paused=z3.BoolVal(False)))
         self.hist = []; ex.hist = self.hist
-        self.turn = 0; self.nconn = 0
+        self.turn = 0; self.nconn = 0; self.nticks = 0
         self.stopped = False; self.stop_processed = False
         self.pause_cmds = 0; self.resume_since_entry = False
         self.paused_at_entry = False; self.dispatched_at_entry = 0
@@ -94,6 +95,8 @@ class World:
         self.replacements = 0; self.fault_reports = 0
         self.in_accept_one = False
         ex.env_turn = self.env_turn
+        K = c['max_conns'] + 3
+        self.pc_fn = single_var_pc('limit', list(range(1, K + 1)) + [c['limit_max']]) if c['limit'] is None else None
         ex.after_send = self.after_send if c['race'] else None
 
     # ---- construction helpers
@@ -154,6 +157,9 @@ class World:
         self.scan_dispatches()
         if c.get('snapshots') is not None: c['snapshots'].append(self.snapshot())
         self.check_at_block()
+        if c.get('snapshots') is None and all(self.field(si.v, 'ServerSocketInfo', 'timeout').v.variant == 'None' for si in self.sockets.items):
+            ex.clock = z3.IntVal(1000)      # no Instant is stored anywhere: re-base the virtual clock (only differences matter)
+        boundary(ex, acc, self.turn + 1, self.roots(), self.pc_fn)
         self.turn += 1
         if self.turn > c['turns']: raise EndOfSchedule()
         self.paused_at_entry = self.real_paused(); self.dispatched_at_entry = len(self.dispatch_log); self.resume_since_entry = False
@@ -207,7 +213,7 @@ class World:
         if 'pause' in A: ops.append('pause')
         if 'resume' in A: ops.append('resume')
         if 'stop' in A: ops.append('stop')
-        if 'tick' in A: ops.append('tick')
+        if 'tick' in A and self.nticks < c.get('max_ticks', 3): ops.append('tick')
         ops.append('go')
         return ops
 
@@ -224,10 +230,11 @@ class World:
         elif op == 'resume': self.wake(Enum('WakerInterest', 'Resume')); self.resume_since_entry = True
         elif op == 'stop': self.wake(Enum('WakerInterest', 'Stop')); self.stopped = True
         elif op.startswith('tick'):
-            if ':' in op: dt = z3.BitVecVal(int(op.split(':')[1]), 64)
+            if any(self.field(si.v, 'ServerSocketInfo', 'timeout').v.variant == 'Some' for si in self.sockets.items): self.nticks += 1
+            if ':' in op: dt = z3.IntVal(int(op.split(':')[1]))
             else:
-                name = 'dt%d' % len(self.hist); dt = z3.BitVec(name, 64); ex.solver.add(z3.ULE(dt, 2000)); self.hist.append('tick:' + name)
-            ex.clock = ex.clock + dt
+                name = 'dt%d' % len(self.hist); dt = z3.Int(name); ex.solver.add(dt >= 0, dt <= 2000); self.hist.append('tick:' + name)
+            ex.clock = z3.simplify(ex.clock + dt)
         elif op.startswith('pickup'): self.pickup(int(op[6:]))
         elif op.startswith('finish'):
             if ':' in op: w_, k_ = op[6:].split(':'); self.finish(int(w_), which=int(k_))
@@ -277,6 +284,16 @@ class World:
                 if self.ex.pick('race', ['no', 'yes']) == 'yes':
                     self.hist.append('race:'); self.acc.wit['finish_between_send_and_inc'] += 1
                     self.finish(idx)
+
+    def roots(self):
+        """Everything the future of this path depends on (real objects + ghost state), for the canonical state signature."""
+        nW = len(self.workers)
+        ghost = dict(nconn=self.nconn, nticks=self.nticks, stopped=self.stopped, faulted=self.faulted_ever, fin=sorted(self.finished) if self.cfg.get('track_c01') else None, lost=sorted(self.lost_with_dead) if self.cfg.get('track_c01') else None,
+                     repl=self.replacements, tail=self.dispatch_log[-(nW - 1):] if nW > 1 and self.cfg.get('track_c04') else None,
+                     marks=getattr(self, 'c04_marks', [])[-(nW - 1):] if nW > 1 and self.cfg.get('track_c04') else None,
+                     prev_dl=getattr(self, 'prev_dl', None), nohandles=getattr(self, 'had_no_handles', None), wakes=self.ex.wakes)
+        ws = [(wk['idx'], wk['gen'], wk['alive'], wk['chan'], wk['counter'], wk['inservice'], wk['owed']) for wk in self.allworkers]
+        return [self.accept, self.sockets, ws, self.wq, self.cmd, self.ex.clock, ghost]
 
     def snapshot(self):
         """Same text as the native driver prints (mount/actix-server/src/accept/drv.rs) - used for differential validation."""
